@@ -495,6 +495,63 @@ pub fn client_case(seed: u64, n: u64, ev: &mut Evidence) {
     }
 }
 
+/// One client request answered with exactly these bytes (used by the coverage-guided leg)
+pub fn client_bytes(framing: Framing, decode: (u8, u8, u8), bytes: &[u8], ev: &mut Evidence) {
+    let bytes2 = bytes.to_vec();
+    let result = run_paused(|| async move {
+        let seq = Seq::default();
+        let (io, handle) = sim_io(vec![], seq.clone());
+        let st = Arc::new(Mutex::new((RequestAssembler::new(framing), false)));
+        handle.set_responder(Box::new(move |b, _| {
+            let mut g = st.lock().unwrap();
+            let frames = g.0.feed(b);
+            let mut items = vec![];
+            for f in frames {
+                if g.1 {
+                    continue;
+                }
+                g.1 = true;
+                let mut s = bytes2.clone();
+                // give the first frame the outstanding transaction id when the input asks for it
+                if framing == Framing::Mbap && s.len() > 2 && s[0] & 1 == 1 {
+                    s[0] = f[0];
+                    s[1] = f[1];
+                }
+                items.push(In::Chunk(s));
+            }
+            items
+        }));
+        let (channel, mut sim) = rodbus::verif::client(rframing(framing), 4, decode_level(decode), std::num::NonZeroUsize::new(2));
+        let task = tokio::spawn(async move { sim.run_session(Box::new(io)).await });
+        channel.enable().await.unwrap();
+        let start = tokio::time::Instant::now();
+        let slot = Slot::new(start, seq.clone());
+        let req = ClientReq::Read { kind: Kind::ReadHolding, start: 0, count: 3 };
+        let _ = submit(&channel, Style::Callback, 1, Duration::from_millis(50), &req, slot.clone()).await;
+        let _ = tokio::time::timeout(Duration::from_secs(30), slot.wait()).await;
+        settle().await;
+        let n = slot.count();
+        let spin = handle.with(|s| s.spin_detected);
+        channel.shutdown().await.ok();
+        let ended = tokio::time::timeout(Duration::from_secs(3600), task).await.is_ok();
+        (n, spin, ended)
+    });
+    match result {
+        Err(p) => ev.violation(format!("client_panic:{}", crate::util::panic_site(&p)), format!("client task panicked: {p}"), json!({})),
+        Ok((n, spin, ended)) => {
+            if n != 1 {
+                ev.violation(format!("client_request_completions={n}"), "request did not complete exactly once".to_string(), json!({}));
+            }
+            if spin {
+                ev.violation("client_spin".to_string(), "client spun on the transport".to_string(), json!({}));
+            }
+            if !ended {
+                ev.violation("client_ignores_shutdown".to_string(), "client task did not end after shutdown".to_string(), json!({}));
+            }
+        }
+    }
+}
+
 pub fn one(seed: u64, n: u64, ev: &mut Evidence) {
     if n % 3 == 2 {
         client_case(seed, n / 3, ev)
@@ -566,9 +623,165 @@ fn run_alone(args: &Args, n: u64, limit: Duration) -> bool {
     }
 }
 
+/// replay one fuzzer artifact in this (non-sanitizer) build: exit code 0 = nothing found
+fn artifact(args: &Args) -> i32 {
+    let Some(path) = args.extra.get("file") else { return EXIT_INCONCLUSIVE };
+    let Ok(data) = std::fs::read(path) else { return EXIT_INCONCLUSIVE };
+    if data.len() < 3 {
+        return 0;
+    }
+    let sel = data[0];
+    let framing = if sel & 1 == 0 { Framing::Mbap } else { Framing::Rtu };
+    let level = (sel >> 1) % 36;
+    let decode = (level % 4, (level / 4) % 3, (level / 12) % 3);
+    let chunk = 1 + (data[1] as usize % 64) * if data[1] > 127 { 9 } else { 1 };
+    let body = &data[2..];
+    let mut script: Vec<In> = body.chunks(chunk).map(|c| In::Chunk(c.to_vec())).collect();
+    script.push(In::Eof);
+    let mut stores = BTreeMap::new();
+    stores.insert(1u8, Store::new(7, 1, 2));
+    stores.insert(0x2Au8, Store::new(9, 0x2A, 0));
+    let case = ServerCase { framing, stores, policy: None, script, decode, commands: vec![] };
+    let obs = run_server_case(&case);
+    let mut ev = Evidence::new();
+    client_bytes(framing, decode, body, &mut ev);
+    if obs.panic.is_some() || obs.spin_detected || obs.timed_out || !ev.violations.is_empty() {
+        println!("artifact reproduces: panic={:?} spin={} never_ended={} client={:?}", obs.panic, obs.spin_detected, obs.timed_out, ev.violations.first().map(|v| v.sig.clone()));
+        return EXIT_VIOLATION;
+    }
+    0
+}
+
+/// thorough tier: coverage-guided fuzzing (libFuzzer + AddressSanitizer) seeded from the
+/// generator's corpus, and the Miri leg over the SIM sessions
+fn thorough_legs(args: &Args, ev: &mut Evidence) {
+    use vcommon::legs::run_leg;
+    let root = verif_root();
+    let corpus = root.join("out").join("fuzz-corpus");
+    let artifacts = root.join("out").join("fuzz-artifacts");
+    let _ = std::fs::remove_dir_all(&corpus);
+    let _ = std::fs::remove_dir_all(&artifacts);
+    let _ = std::fs::create_dir_all(&corpus);
+    let _ = std::fs::create_dir_all(&artifacts);
+    let mut rng = Rng::sub(args.seed, 7107, 0);
+    for i in 0..3000u32 {
+        let framing = if i % 2 == 0 { Framing::Mbap } else { Framing::Rtu };
+        let tx0 = rng.u16();
+        let (stream, _) = hostile_stream(&mut rng, framing, i % 3 != 0, tx0);
+        let mut data = vec![((i % 72) as u8) << 1 | (i % 2) as u8, rng.u8()];
+        data.extend(stream);
+        let _ = std::fs::write(corpus.join(format!("seed-{i:05}")), data);
+    }
+    let secs = args.extra.get("fuzz-seconds").and_then(|s| s.parse::<u64>().ok()).unwrap_or(600);
+    let target = root.join(".build").join("fuzz").display().to_string();
+    let fuzzdir = root.join("fuzz").display().to_string();
+    let total = format!("-max_total_time={secs}");
+    let art = format!("-artifact_prefix={}/", artifacts.display());
+    let forks = format!("-fork={}", args.jobs.min(16));
+    let r = run_leg(
+        "cargo",
+        &["+nightly", "fuzz", "run", "--fuzz-dir", &fuzzdir, "c07", &corpus.display().to_string(), "--", &total, "-timeout=10", "-rss_limit_mb=4096", "-len_control=0", "-ignore_ooms=1", "-ignore_timeouts=0", &art, &forks],
+        &[("CARGO_NET_OFFLINE", "true"), ("CARGO_TARGET_DIR", &target)],
+        Some(&fuzzdir),
+        Duration::from_secs(secs + 1500),
+    );
+    ev.count("fuzz_leg_runs", 1);
+    // "#1234: cov: 5678 ft: ..." lines of fork mode
+    let mut execs = 0u64;
+    let mut cov = 0u64;
+    for l in r.output.lines() {
+        if let Some(rest) = l.strip_prefix('#') {
+            if let Some((n, tail)) = rest.split_once(':') {
+                if let Ok(n) = n.trim().parse::<u64>() {
+                    execs = execs.max(n);
+                }
+                if let Some(p) = tail.find("cov: ") {
+                    if let Some(c) = tail[p + 5..].split_whitespace().next().and_then(|x| x.parse::<u64>().ok()) {
+                        cov = cov.max(c);
+                    }
+                }
+            }
+        }
+    }
+    ev.count("fuzz_executions", execs);
+    ev.max("fuzz_coverage_edges", cov);
+    let mut crashes = vec![];
+    let mut timeouts = vec![];
+    if let Ok(rd) = std::fs::read_dir(&artifacts) {
+        for e in rd.flatten() {
+            let name = e.file_name().to_string_lossy().to_string();
+            if name.starts_with("crash-") {
+                crashes.push(e.path());
+            } else if name.starts_with("timeout-") {
+                timeouts.push(e.path());
+            }
+        }
+    }
+    let exe = std::env::current_exe().unwrap();
+    for c in crashes.iter().take(5) {
+        // confirm in the plain build; the message of the crash is in the fuzzer output
+        let rr = run_leg(&exe.display().to_string(), &["c07-artifact", "--file", &c.display().to_string()], &[], None, Duration::from_secs(120));
+        let what = r.output.lines().find(|l| l.contains("panicked at") || l.contains("ERROR: AddressSanitizer")).unwrap_or("crash").to_string();
+        let keep = root.join("out").join("replay").join(c.file_name().unwrap());
+        let _ = std::fs::create_dir_all(keep.parent().unwrap());
+        let _ = std::fs::copy(c, &keep);
+        if rr.code == Some(EXIT_VIOLATION) || what.contains("AddressSanitizer") {
+            ev.violation(
+                format!("fuzz_crash:{}", what.split(" at ").last().unwrap_or("?").split(':').take(2).collect::<Vec<_>>().join(":").replace(' ', "_")),
+                format!("libFuzzer found a crashing input ({}): {what}", keep.display()),
+                json!({"artifact": keep.display().to_string(), "replayed": rr.output.lines().last()}),
+            );
+        } else {
+            ev.inconclusive(format!("fuzzer crash artifact {} did not reproduce in the plain build", c.display()));
+        }
+    }
+    for t in timeouts.iter().take(3) {
+        let a = run_leg(&exe.display().to_string(), &["c07-artifact", "--file", &t.display().to_string()], &[], None, Duration::from_secs(100));
+        let b = if a.code.is_none() { run_leg(&exe.display().to_string(), &["c07-artifact", "--file", &t.display().to_string()], &[], None, Duration::from_secs(100)).code } else { a.code };
+        if a.code.is_none() && b.is_none() {
+            let keep = root.join("out").join("replay").join(t.file_name().unwrap());
+            let _ = std::fs::copy(t, &keep);
+            ev.violation("fuzz_timeout:wedge_confirmed_twice".to_string(), format!("libFuzzer timeout artifact {} hangs in the plain build as well (twice, 100 s each)", keep.display()), json!({"artifact": keep.display().to_string()}));
+        } else {
+            ev.inconclusive(format!("fuzzer timeout artifact {} finishes when run alone", t.display()));
+        }
+    }
+    if crashes.is_empty() && timeouts.is_empty() {
+        if execs > 0 {
+            ev.class("leg|libfuzzer_asan|no_artifacts");
+            ev.sample(json!({"fuzz_leg": {"executions": execs, "coverage_edges": cov, "seconds": secs, "forks": args.jobs.min(16), "seed_corpus_files": 3000}}));
+        } else {
+            ev.inconclusive(format!("fuzz leg produced no executions: {}", r.output.lines().rev().take(3).collect::<Vec<_>>().join(" | ")));
+        }
+    }
+    // Miri over a handful of SIM sessions (dependency unsafe code under rodbus' usage)
+    let manifest = root.join("harness").join("Cargo.toml").display().to_string();
+    let mtarget = root.join(".build").join("miri").display().to_string();
+    let m = run_leg(
+        "cargo",
+        &["+nightly", "miri", "run", "-q", "--manifest-path", &manifest, "-p", "vmiri", "--", "sim", &(args.seed % 1000).to_string()],
+        &[("MIRIFLAGS", "-Zmiri-disable-isolation"), ("CARGO_TARGET_DIR", &mtarget), ("CARGO_NET_OFFLINE", "true")],
+        None,
+        Duration::from_secs(3000),
+    );
+    ev.count("miri_leg_runs", 1);
+    if m.output.contains("Undefined Behavior") || m.output.contains("VMIRI-MISMATCH") {
+        let first = m.output.lines().find(|l| l.contains("Undefined Behavior") || l.contains("VMIRI-MISMATCH")).unwrap_or("").to_string();
+        ev.violation("miri:C07:sim_sessions".to_string(), format!("Miri reported on the SIM sessions: {first}"), json!({"tail": m.output.lines().rev().take(30).collect::<Vec<_>>()}));
+    } else if m.output.contains("VMIRI-OK") && m.code == Some(0) {
+        ev.count("miri_leg_clean", 1);
+        ev.class("leg|miri|sim_sessions");
+    } else {
+        ev.inconclusive(format!("Miri leg did not complete: {}", m.output.lines().rev().take(3).collect::<Vec<_>>().join(" | ")));
+    }
+}
+
 pub fn run(args: &Args) -> i32 {
     if args.check == "c07-worker" {
         return worker(args);
+    }
+    if args.check == "c07-artifact" {
+        return artifact(args);
     }
     let started = Instant::now();
     if let Some(path) = &args.replay {
@@ -705,6 +918,9 @@ pub fn run(args: &Args) -> i32 {
             }
             i += 1;
         }
+    }
+    if args.tier == Tier::Thorough && !args.extra.contains_key("no-legs") {
+        thorough_legs(args, &mut ev);
     }
     let meta = Meta {
         property_id: "C07",
